@@ -51,6 +51,17 @@ void judge(vh::Ctx& c, int d, const Vec& a, bool order, const char* what) {
     if (!(std::fabs((double)(tr2 - ws2)) <= TOL * d * d * scale * scale + 1e-300)) c.violation(key + "square-sum-mismatch", ctx);
   }
   if (A.GetComponents() != a) c.violation("C12:operand-modified", ctx);
+  // the same vector on user-supplied storage: the same decomposition
+  try {
+    ExtVec E(a, d);
+    auto es2 = E.v.GetEigenSystem(order);
+    c.eval();
+    bool same = es2.first && es2.second && (int)es2.first->size == d;
+    for (int i = 0; same && i < d; i++) { if (!(gsl_vector_get(es2.first.get(), i) == w[i])) same = false; }
+    if (same && !(from_gsl(es2.second.get()).a == V.a)) same = false;
+    if (!same) c.violation(key + "differs-for-a-vector-on-user-storage", ctx);
+    if (!E.bound() || E.image() != a) c.violation("C12:operand-modified", ctx + " [user storage]");
+  } catch (std::exception& e) { c.violation(key + "exception-for-a-vector-on-user-storage", ctx + ": " + e.what()); }
 }
 }  // namespace
 
